@@ -173,6 +173,104 @@ def read_path(fs, how, path, chunk):
     raise ValueError(how)
 
 
+# ------------------------------------------------------------------------------------------
+# FTPFS over a loop-back server (harness/ftpserver.py; both kinds of server): the write path x read path matrix with
+# lengths around the transfer block sizes (ftplib's 8192 for upload/download, fs.constants.DEFAULT_CHUNK_SIZE for
+# FTPFile.read/write) - every transfer is a data connection of its own, so fewer lengths than on the local backends.
+# The stored bytes are also read from the server's directory with os.* (what was WRITTEN, whatever the read path says).
+
+# TODO PENDING_FINDINGS (ftp4, 2026-10-01): misbehaviours of the UNCHANGED library exposed by the FTPFS matrix, not yet
+# in known_findings.json; awaiting triage.  Signatures are the `why` strings of the classification loop in run().
+FTP_KNOWN_SIGNATURES = [w % n for n in ("FTPFS", "FTPFS(server without MLST/MLSD)") for w in (
+    # 'a+' handle: seek(0); read(1); writelines(..) - write directly after read, no seek between: the STOR/APPE goes out
+    # on a control connection whose RETR is pending: ftplib.error_reply '226 Transfer complete.' (timing dependent)
+    "%s: write path append_plus_lines raised",
+    # (repaired in /repo by the FTPFS fix series of 2026-10-01, violations again if they return: openbin(p, 'w') without
+    #  a write() created no file - "write path piecewise / writefile stored other bytes" at length 0)
+)]
+PENDING_FINDINGS = []      # the signatures above are registered in known_findings.json (C02)
+
+
+def ftp_lengths(thorough):
+    from fs.constants import DEFAULT_CHUNK_SIZE
+    ls = [0, 1, 4097, 8193, DEFAULT_CHUNK_SIZE + 5]
+    if thorough:
+        ls += [8191, 8192, 3 * 8192 + 1, DEFAULT_CHUNK_SIZE - 1, DEFAULT_CHUNK_SIZE, 3 * DEFAULT_CHUNK_SIZE + 1]
+    return sorted(ls)
+
+
+def ftp_matrix(report, rnd, thorough, bad, nontrivial):
+    """-> (coverage, number of evaluations)."""
+    ok, why = B.network_available()
+    cov = dict(available=ok, unavailable_because=why)
+    if not ok:
+        return cov, 0
+    n = 0
+    pairs_all = list(itertools.product(WRITE_PATHS, READ_PATHS))
+    cov.update(backends=[bc.name for bc in B.NETWORK], lengths=ftp_lengths(thorough), pairs_per_length={})
+    for bc in B.NETWORK:
+        b = bc()
+        try:
+            fsx = b.make()
+            for ci, ln in enumerate(ftp_lengths(thorough)):
+                data = bytes(bytearray((i * 7 + ln) % 256 for i in range(ln)))
+                if ln and ci % 2:
+                    data = data[:-1] + b"\n"
+                chunk = [None, 1, 7, 4096][ci % 4] if ln < 10000 else [None, 4096][ci % 2]
+                # every write path and every read path at least once per length, + drawn pairs
+                k = max(len(WRITE_PATHS), len(READ_PATHS))
+                ws, rs = list(WRITE_PATHS), list(READ_PATHS)
+                rnd.shuffle(ws), rnd.shuffle(rs)
+                pairs = [(ws[i % len(ws)], rs[i % len(rs)]) for i in range(k)]
+                pairs += pairs_all if thorough and ln < 10000 else rnd.sample(pairs_all, 4)
+                cov["pairs_per_length"][ln] = len(pairs)
+                for wp, rp in pairs:
+                    if ln > 10000 and rp in ("readline", "iterate") and not thorough:
+                        rp = "read"          # FTPFile reads lines byte by byte: one recv per byte
+                    n += 1
+                    p = "f%d" % ci
+                    b.settle()
+                    if os.path.exists(os.path.join(b.root, p)):     # every write path has to create the file itself
+                        os.remove(os.path.join(b.root, p))
+                    try:
+                        write_path(fsx, wp, p, data, chunk)
+                    except Exception as e:  # noqa
+                        bad.append(("%s: write path %s raised" % (bc.name, wp),
+                                    dict(backend=bc.name, write=wp, read=rp, length=ln, chunk=chunk),
+                                    type(e).__name__ + ": " + str(e)[:200], None))
+                        continue
+                    b.settle()
+                    try:
+                        with open(os.path.join(b.root, p), "rb") as fh:
+                            stored = fh.read()
+                    except IOError:
+                        stored = None       # no such file
+                    if stored != data:
+                        bad.append(("%s: write path %s stored other bytes" % (bc.name, wp),
+                                    dict(backend=bc.name, write=wp, length=ln, chunk=chunk,
+                                         stored_length=None if stored is None else len(stored)),
+                                    "no file" if stored is None else repr(stored)[:120], repr(data)[:120]))
+                        with open(os.path.join(b.root, p), "wb") as fh:      # the read path gets the right bytes anyway
+                            fh.write(data)
+                    try:
+                        got = read_path(fsx, rp, p, chunk)
+                    except Exception as e:  # noqa
+                        bad.append(("%s: read path %s raised" % (bc.name, rp),
+                                    dict(backend=bc.name, write=wp, read=rp, length=ln, chunk=chunk),
+                                    type(e).__name__ + ": " + str(e)[:200], None))
+                        continue
+                    nontrivial.add((bc.name, wp, rp, ln, chunk))
+                    exp = ("hash", hashlib.md5(data).hexdigest()) if rp == "hash" else \
+                        ("size", ln, ln) if rp == "getsize" else data
+                    if got != exp:
+                        bad.append(("%s: read path %s returned other bytes" % (bc.name, rp),
+                                    dict(backend=bc.name, write=wp, read=rp, length=ln, chunk=chunk),
+                                    repr(got)[:120], repr(exp)[:120]))
+        finally:
+            b.close()
+    return cov, n
+
+
 def byte_cases(tier, rnd):
     chunks = [1, 2, 7, 4096]
     cases = []
@@ -473,6 +571,9 @@ def run(report):
                                                                    chunk=chunk), repr(got)[:120], repr(data)[:120]))
         finally:
             b.close()
+    # (2') the same matrix on FTPFS over a loop-back server
+    ftp_cov, n_ftp = ftp_matrix(report, random.Random(report.seed + 202), thorough, bad, nontrivial)
+    total += n_ftp
     # zero-size requests (record parser, size sweeps) on every kind of read handle
     n_zero_seq, n_zero_req = zero_read_block(rnd, thorough, bad, nontrivial)
     total += n_zero_seq
@@ -590,11 +691,15 @@ def run(report):
             if got != exp:
                 bad.append(("make_stream builds a different stack", dict(mode=mode, buffering=buffering), got, exp))
     seen = set()
+    pending_seen = {}
     for why, ctx, a, b2 in bad:
         sig = why + " " + str(ctx.get("backend", ctx.get("mode", "")))
         known = report.known_match(why)
         if known:
             report.known_finding(known)
+            continue
+        if why in PENDING_FINDINGS:
+            pending_seen[why] = pending_seen.get(why, 0) + 1
             continue
         if sig in seen or len(seen) >= 10:
             continue
@@ -616,6 +721,7 @@ def run(report):
                               "header widths 1/2/4 and empty records + size sweeps with read(0) / readinto(empty) / "
                               "readline(0) at start, middle and EOF, ending in read(-1) / read(None) / read()); "
                               "every call compared with io.BytesIO (data and position)",
+               ftpfs_loopback_server=dict(ftp_cov, evaluations=n_ftp, pending_findings_seen=pending_seen),
                loop_cases=len(lc), text_cases=tcases, disagreements_checked=len(bad), vm_compute_crosschecked=n_vm,
                traces_validated_against_impl=total - len(bad))
     return report.finish(proof, cov, assumptions=[
